@@ -148,6 +148,13 @@ func lifeRequest(h lifeHist, rngKey string) (*saml.IdpAuthnRequest, c08Markers, 
 	return req, m, reqID, nil
 }
 
+// content-encryption keys seen in emitted forms, across all histories of a run: C08 wants a fresh key
+// for every response (the same cached response re-emitted within one history repeats its own key)
+var (
+	lifeKeysMu sync.Mutex
+	lifeKeys   = map[string]string{}
+)
+
 type lifeObs struct {
 	Out     string   `json:"out"`
 	Content string   `json:"content"`
@@ -267,6 +274,31 @@ func lifeRun(t *testing.T, prop string) {
 				if p {
 					rep.DriftCase(key_+":panic", "the call panicked: "+strings.SplitN(msg, "\n", 2)[0], replay)
 					return
+				}
+				if prop == "C08" && h.Enc && o.Out == "form" && o.Content == "enc" {
+					// the content must be recoverable with the SP's key, under a content key that was really
+					// drawn (not the all-zero buffer) and that no other response of this run has used
+					rec, rerr := c08Recover(o.xml, m)
+					switch {
+					case rerr != nil || !rec.Content || len(rec.By) != 1 || rec.By[0] != "sp":
+						rep.Violation(fmt.Sprintf("C08:life:%s:unrecoverable", sig), fmt.Sprintf("call %d (%s) emits an EncryptedAssertion that the SP's private key does not recover (recovered by %v, %v)", ci+1, c.C, rec.By, rerr), replay)
+						return
+					case len(rec.Key) > 0 && bytes.Count(rec.Key, []byte{0}) == len(rec.Key):
+						rep.Violation(fmt.Sprintf("C08:life:%s:undrawn-key", sig), fmt.Sprintf("call %d (%s) emits an assertion encrypted under the all-zero content key: the key was never drawn from the random source, anybody can decrypt it", ci+1, c.C), replay)
+						return
+					case len(rec.Key) > 0:
+						lifeKeysMu.Lock()
+						owner, dup := lifeKeys[string(rec.Key)]
+						me := fmt.Sprintf("%s/pos=%d", sig, pos)
+						if !dup {
+							lifeKeys[string(rec.Key)] = me
+						}
+						lifeKeysMu.Unlock()
+						if dup && owner != me {
+							rep.Violation(fmt.Sprintf("C08:life:%s:stale-key", sig), fmt.Sprintf("call %d (%s) emits an assertion under a content-encryption key that another response (%s) already used", ci+1, c.C, owner), replay)
+							return
+						}
+					}
 				}
 				if prop == "C08" && h.Enc && o.Out == "form" && o.Content == "plain" {
 					rep.Violation(fmt.Sprintf("C08:life:%s:plaintext", sig), fmt.Sprintf("the SP advertises an encryption key, yet call %d (%s) of this history emits the assertion in clear (leaked: %v)", ci+1, c.C, o.Leaks), replay)
